@@ -30,6 +30,7 @@ Model (JSON):
           "against_none": bool,                    # check only: let Griffe pick the latest tag
           "force": bool, "resolve_aliases": bool, "external": None | True | False,   # load_git: resolve_external
           "preexisting": bool,
+          "thread": bool,                          # the operation is called from a worker thread (threading.Thread; result/exception handed back)
           "user_wt": None | "ref" | "griffe-ref",   # before the operation the user adds a linked worktree of their own whose directory
                                                     # basename is normalize(ref) / "griffe-" + normalize(ref)
           "fault": None | {"type": "ext_exc" | "ext_kbi", "k": int} | {"type": "sub_nonzero" | "sub_oserror", "i": int}}
@@ -299,6 +300,7 @@ def strategy():
             "external": st.sampled_from([None, None, True, False]),
             "preexisting": st.sampled_from([False] * 7 + [True]),
             "user_wt": st.sampled_from([None] * 5 + ["ref", "ref", "griffe-ref"]),
+            "thread": st.sampled_from([False, False, True]),
             "fault": fault,
         }
     )
